@@ -137,4 +137,28 @@ def run(chk, F, tier):
     chk.check(gated, "R03b", "goto-gated", "`goto` is no longer gated on the Goto feature (it is an ordinary name in Lua 5.1)", nk.loc())
     from rules import nesting
     nesting.check_pairing(chk, F, "R03c", "C03")
+    # R03d: annotations are comments for Lua: their parse errors are never Lua syntax errors
+    chk.rule("R03d", "no function of the doc-comment grammar builds a parse error of kind SyntaxError (only DocError): a malformed annotation in a valid "
+                     "Lua file must not make has_syntax_errors() true")
+    nerr = 0
+    per_fn = {}
+    for b in F.bodies.values():
+        if b.crate != "emmylua_parser" or "::test" in b.id:
+            continue
+        if not (b.id.startswith("emmylua_parser::grammar::doc::") or b.id.startswith("emmylua_parser::parser::lua_doc_parser::")):
+            continue
+        for bb, c in b.calls():
+            n = c.get("r") or c.get("f") or ""
+            if n.endswith(("LuaParseError::syntax_error_from", "LuaParseError::doc_error_from", "LuaParseError::new")):
+                nerr += 1
+                per_fn[b.id] = per_fn.get(b.id, 0) + 1
+                key = "doc-error-kind@%s#%d" % (b.id.replace("emmylua_parser::", ""), per_fn[b.id])
+                bad = n.endswith("syntax_error_from")
+                if n.endswith("LuaParseError::new"):
+                    bad = "SyntaxError" in repr(c["a"][:1]) or any("SyntaxError" in repr(st) for blk in b.blocks for st in blk[1] if st[0] == "a" and st[2][0] == "agg")
+                chk.check(not bad, "R03d", key,
+                          "%s reports an annotation error as LuaParseErrorKind::SyntaxError: a program the reference Lua accepts (the annotation is a "
+                          "comment) gets a syntax-error diagnostic, and tools that refuse trees with syntax errors (formatter) refuse the file"
+                          % b.id.split("::")[-1], b.loc(c["l"]), sample={"rule": "R03d", "site": key, "verdict": "DocError"})
+    chk.floor("error constructions in the doc grammar", nerr, 15)
     chk.explanation = "Evaluates the per-level feature sets and the keyword table from MIR and compares them with the reference tables encoded in the rule."
